@@ -36,6 +36,7 @@ func (w *World) stepFault(pre *Snapshot, op Op) StepOut {
 	inner.N = op.N
 	out := StepOut{Op: op, Cmd: w.Build(inner), Decision: "FAULT", Post: pre, Accepted: true}
 	bad := func(f string, a ...any) { out.Viol = append(out.Viol, Violation{"C03", fmt.Sprintf(f, a...)}) }
+	w.writeFiles(inner.Files) // the model looks at the files a result names
 	if w.Predict(pre, inner).Decision == MustReject {
 		out.Labels = append(out.Labels, "fault.skipped.rejected")
 		return out
